@@ -386,15 +386,27 @@ class ExecS(Exec):
         base = st.mark()
         a = st.copy()
         a.decide(c)
-        r1 = self.ex_block(s.body, a)
+        r1 = self.branch_or_dead(s.body, a)
         bb = st.copy()
         bb.decide(z3.Not(c))
-        r2 = self.ex_block(s.orelse, bb)
+        r2 = self.branch_or_dead(s.orelse, bb)
         normals = [o.st for o in r1 + r2 if o.kind == "normal"]
         outs += [o for o in r1 + r2 if o.kind != "normal"]
         if normals:
             outs.append(Outcome("normal", self.merge_states(base, normals)))
         return outs
+
+    def branch_or_dead(self, stmts, st):
+        """A branch that uses something outside the encoding is skipped only if it is dead code under the path condition
+        (e.g. debugging output behind a flag that the contract's precondition switches off)."""
+        nobl = len(self.cx.obls)
+        try:
+            return self.ex_block(stmts, st)
+        except Unsupported:
+            if self.feasible(st, z3.BoolVal(True), timeout=2000):
+                raise
+            del self.cx.obls[nobl:]
+            return []
 
     def s_Break(self, s, st):
         return [Outcome("break", st)]
